@@ -28,7 +28,7 @@ func init() {
 		Title:     "Invalid declarations fail fast",
 		Technique: "runtime monitor around every declaration call of the real library (recover per call), judged by a declaration model; then every declared name is used on a command line and the variable it sets observed",
 		Rule: "a case is a sequence of 1-6 declarations on the root or inside a subcommand's initializer, through all entry points (BoolOpt, BoolOptPtr, String, StringPtr, IntOpt, Strings, Var/VarOpt; StringArg, Strings(Arg), IntArg, VarArg): " +
-			"options with 1-3 names drawn from a small alphabet (one-letter, longer, upper case, with dash/underscore/digit) so that collisions between any two names of any two options, in either order, are frequent; " +
+			"options with 1-3 names drawn from a small alphabet (some *Ptr declarations deliberately store into the same variable as an earlier one) (one-letter, longer, upper case, with dash/underscore/digit) so that collisions between any two names of any two options, in either order, are frequent; " +
 			"argument names drawn from valid and invalid strings without blanks (lower case, digit first, OPTIONS, symbols, brackets, '...', empty). Oracle: the call panics iff an option name was already taken / the argument name is not " +
 			"^[A-Z][A-Z0-9_]*$, is OPTIONS, or is a duplicate; for sequences without conflict every listed name (one letter -> -x, longer -> --xx) given on a command line sets exactly its own variable and no other. " +
 			"Name lists repeating a name within one declaration are generated but not judged. non-trivial = sequence of >=2 declarations; distinct by the sequence.",
@@ -52,6 +52,7 @@ func runC18(c *core.Ctx) {
 	}
 	var opts []od
 	var steps []string
+	shared := false // some *Ptr declarations store into the same variable: legal, and it must not soften the duplicate-name check
 	inSub := r.Intn(3) == 0
 	k := 1 + r.Intn(6)
 	usedOpt := map[string]bool{}
@@ -93,11 +94,21 @@ func runC18(c *core.Ctx) {
 						o.b = cmd.BoolOpt(joined, false, "")
 					case 1:
 						o.b = new(bool)
+						for _, prev := range opts {
+							if prev.b != nil && r.Intn(2) == 0 {
+								o.b, shared = prev.b, true
+							}
+						}
 						cmd.BoolOptPtr(o.b, joined, false, "")
 					case 2:
 						o.s = cmd.String(cli.StringOpt{Name: joined})
 					case 3:
 						o.s = new(string)
+						for _, prev := range opts {
+							if prev.s != nil && r.Intn(2) == 0 {
+								o.s, shared = prev.s, true
+							}
+						}
 						cmd.StringPtr(o.s, cli.StringOpt{Name: joined})
 					case 4:
 						o.i = cmd.IntOpt(joined, 0, "")
@@ -214,7 +225,10 @@ func runC18(c *core.Ctx) {
 		c.Violation(violation, map[string]interface{}{"declarations": steps}, nil)
 		return
 	}
-	if oi < 0 || inSub {
+	if shared {
+		c.Inc("sequences_with_shared_destination")
+	}
+	if oi < 0 || inSub || shared {
 		// (for a subcommand the variables belong to an initializer run that is over; addressing is checked on the root)
 		return
 	}
